@@ -223,7 +223,7 @@ inductive POut (α : Type)
   | bad
   /-- outside the modelled token domain -/
   | unsupported
-  deriving Repr
+  deriving Repr, DecidableEq
 
 /-- stand-alone `MediaQuery(text)` (`_partof=False`): the whole token list is the query -/
 def parseQ : QSt → List Tok → POut MQ
@@ -375,7 +375,7 @@ inductive Outcome (α : Type)
   | ret (a : α)
   | raised (e : Err)
   | unsupported
-  deriving Repr
+  deriving Repr, DecidableEq
 
 def queries (l : List LItem) : List MQ := l.filterMap fun | .query q => some q | .comment _ => none
 
